@@ -340,7 +340,7 @@ def index_of(path_expr):
 
 
 def run(ctx):
-    configs = ["default"] if ctx.tier == "quick" else ["default", "release", "full", "nobg-full", "single:rolling_file_appender,compound_policy,fixed_window_roller,delete_roller"]
+    configs = ["default", "full"] if ctx.tier == "quick" else ["default", "release", "full", "nobg-full", "single:rolling_file_appender,compound_policy,fixed_window_roller,delete_roller"]
     for cfg in configs:
         run_cfg(ctx, ctx.prog(cfg), cfg)
 
